@@ -579,7 +579,10 @@ def gen_random(rng, index):
     zone_min = rng.choice([0, 0, 60, -210, 345, -30])
     return {"property": PROP, "kind": "random", "index": index,
             "mode": mode, "zone": [-60 * zone_min, -60 * zone_min, 0],
-            "sample_salt": rng.randrange(1 << 30), "steps": g.steps}
+            "sample_salt": rng.randrange(1 << 30), "steps": g.steps,
+            # the size of the library's memo tables is a tuning knob: with
+            # tiny tables the eviction / refill path is the common one
+            "cache_max": rng.choice([None, None, None, 0, 1, 2, 8])}
 
 
 FALLBACK_FORMATS = ["%a %b %d %H:%M:%S %Y", "%A %d %B %Y", "%c"]
@@ -677,7 +680,8 @@ def gen_scenario(index):
         op("tp.hash_str", [x])
     return {"property": PROP, "kind": "scenario", "index": index,
             "mode": model.SPELLINGS[index % len(model.SPELLINGS)],
-            "zone": [0, 0, 0], "sample_salt": index, "steps": steps}
+            "zone": [0, 0, 0], "sample_salt": index, "steps": steps,
+            "cache_max": [None, 1, 2][index % 3]}
 
 
 def gen_directed(rng, index):
@@ -843,7 +847,8 @@ def gen_directed(rng, index):
                 model.SPELLINGS)],
             "zone": [0, 0, 0] if (index // len(seeds)) % 2 == 0 else
             [-19800, -19800, 0],
-            "sample_salt": index, "steps": steps}
+            "sample_salt": index, "steps": steps,
+            "cache_max": [None, None, 1, 8][index % 4]}
 
 
 # --------------------------------------------------------------------------
@@ -855,33 +860,107 @@ def lib_classes():
             data.TimeRecurrence)
 
 
-def snap(obj, depth=0):
-    """Deep snapshot of the observable state behind a value: every slot of
-    every class in its MRO, recursively through linked library values."""
+# The slots that carry a value's state on the pinned tree: each is set from a
+# constructor argument and is what the public getters report.  A slot that a
+# later change adds (a memo of the hash, say) is not state by itself: a change
+# in it is judged through the value's complete public view instead, so that a
+# correct lazily filled memo raises no alarm and a stale one still does.
+STATE_SLOTS = {
+    "TimeRecurrence": ["_repetitions", "_start_point", "_duration",
+                       "_end_point", "_second_point", "_format_number",
+                       "_min_point", "_max_point"],
+    "Duration": ["_years", "_months", "_weeks", "_days", "_hours",
+                 "_minutes", "_seconds"],
+    "TimeZone": ["_years", "_months", "_weeks", "_days", "_hours",
+                 "_minutes", "_seconds", "_unknown"],
+    "TimePoint": ["_num_expanded_year_digits", "_year", "_month_of_year",
+                  "_day_of_year", "_day_of_month", "_day_of_week",
+                  "_week_of_year", "_hour_of_day", "_minute_of_hour",
+                  "_second_of_minute", "_truncated", "_truncated_property",
+                  "_truncated_dump_format", "_dump_format", "_time_zone"]}
+
+
+def snap(obj, depth=0, extras=None, path=""):
+    """Deep snapshot of the state behind a value: every state slot of every
+    class in its MRO, recursively through linked library values.  Slots the
+    pinned classes do not have go to `extras` (when given) instead."""
     if obj is None or isinstance(obj, (bool, int, str)):
         return obj
     if isinstance(obj, float):
         return repr(obj)
     if isinstance(obj, (list, tuple)):
-        return [snap(x, depth + 1) for x in obj]
+        return [snap(x, depth + 1, extras, "%s[%d]" % (path, i))
+                for i, x in enumerate(obj)]
     if isinstance(obj, dict):
-        return sorted((str(k), snap(v, depth + 1)) for k, v in obj.items())
+        return sorted((str(k), snap(v, depth + 1, extras,
+                                    "%s[%s]" % (path, k)))
+                      for k, v in obj.items())
     cls = type(obj)
     if cls.__module__.startswith("metomi.isodatetime") and depth < 6:
         out = [cls.__name__]
+        state = STATE_SLOTS.get(cls.__name__)
+        seen = set()
         for klass in cls.__mro__:
             for slot in klass.__dict__.get("__slots__", ()):
-                if slot in ("__dict__", "__weakref__"):
+                if slot in ("__dict__", "__weakref__") or slot in seen:
                     continue
+                seen.add(slot)
                 try:
                     val = getattr(obj, slot)
                 except AttributeError:
                     val = "<unset>"
-                out.append([slot, snap(val, depth + 1)])
+                where = "%s.%s" % (path, slot)
+                if state is None or slot in state:
+                    out.append([slot, snap(val, depth + 1, extras, where)])
+                elif extras is not None:
+                    extras.append([where, snap(val, depth + 1, None, where)])
         if hasattr(obj, "__dict__"):
-            out.append(["__dict__", snap(vars(obj), depth + 1)])
+            for key, val in sorted(vars(obj).items()):
+                where = "%s.%s" % (path, key)
+                if state is None or key in state:
+                    out.append([key, snap(val, depth + 1, extras, where)])
+                elif extras is not None:
+                    extras.append([where, snap(val, depth + 1, None, where)])
         return out
     return repr(obj)
+
+
+def public_view(obj):
+    """Everything the public no-argument interface reports about a value:
+    every property and getter, str(), repr() and hash stability."""
+    from metomi.isodatetime import data
+    if isinstance(obj, data.TimePoint):
+        names = [n for n in TP_NOARG if n not in VALUE_ATTRS["tp"]]
+        names.append("time_zone")
+    elif isinstance(obj, data.TimeZone):
+        names = [n for n in TZ_NOARG if n not in VALUE_ATTRS["tz"]]
+    elif isinstance(obj, data.Duration):
+        names = [n for n in DUR_NOARG if n not in VALUE_ATTRS["dur"]]
+    elif isinstance(obj, data.TimeRecurrence):
+        names = list(REC_NOARG)
+    else:
+        return None
+    view = []
+    try:
+        with kernel.guarded():
+            for name in names:
+                try:
+                    val = getattr(obj, name)
+                    if callable(val):
+                        val = val()
+                    view.append([name, canon_plain(val)])
+                except kernel.Hang:
+                    raise
+                except Exception as exc:
+                    view.append([name, "EXC:" + type(exc).__name__])
+            view.append(["str", str(obj)])
+            view.append(["repr", repr(obj)])
+            view.append(["hash_stable", hash(obj) == hash(obj)])
+    except kernel.Hang:
+        view.append(["HANG"])
+    except Exception as exc:
+        view.append(["EXC", type(exc).__name__])
+    return view
 
 
 def observe(obj):
@@ -970,6 +1049,8 @@ class Sim(object):
         self.pool = {}          # name -> value
         self.order = []
         self.snaps = {}
+        self.extras = {}
+        self.views = {}
         self.obs = {}
         self.aliased = set()
         self.violations = []
@@ -995,7 +1076,10 @@ class Sim(object):
         self.order.append(name)
         self.snaps[name] = snap(value)
         self.obs[name] = observe(value)
-        after = snap(value)
+        self.views[name] = public_view(value)
+        extras = []
+        after = snap(value, extras=extras)
+        self.extras[name] = extras
         if after != self.snaps[name]:
             # str() / hash() of the new value changed it: they are public
             # operations too
@@ -1174,7 +1258,21 @@ class Sim(object):
         """The oracle: every value of the pool still has the slot snapshot it
         was admitted with; operands (and a sample) also the same str/hash."""
         for name in self.order:
-            now = snap(self.pool[name])
+            extras = []
+            now = snap(self.pool[name], extras=extras)
+            if now == self.snaps[name] and extras != self.extras[name]:
+                # a slot the pinned classes do not have changed: decided by
+                # what the value reports in public
+                self.count("probe.extra_slot_changed")
+                self.extras[name] = extras
+                view = public_view(self.pool[name])
+                if view != self.views[name]:
+                    self.violate(
+                        "public_view_changed", opname, step_no, victim=name,
+                        victim_is_operand=name in operand_names,
+                        op_raised=raised, before=self.views[name],
+                        after=view)
+                    self.views[name] = view
             if now != self.snaps[name]:
                 self.violate(
                     "mutated", opname, step_no, victim=name,
@@ -1223,6 +1321,9 @@ class Sim(object):
         world.install_time(facade)
         world.set_env(world.ENV_CAL, None)
         world.set_env(world.ENV_REF, None)
+        if trace.get("cache_max") is not None:
+            world.shrink_caches(trace["cache_max"])
+            self.count("arm.cache_shrink_runs")
         with kernel.guarded():
             data.Calendar.default().set_mode(trace["mode"])
         self.parsers = {
@@ -1422,8 +1523,13 @@ RULE = (
     "sequence of (client, operation name, raised?)")
 
 ASSUMPTIONS = [
-    "observable state = every __slots__ entry along the MRO (recursively "
-    "through linked library values) plus str() and hash()",
+    "observable state = every state slot of the pinned classes along the MRO "
+    "(recursively through linked library values) plus str() and hash(); a "
+    "change in a slot the pinned classes do not have is judged by the value's "
+    "complete public view (all properties and no-argument getters, str, repr, "
+    "hash stability) instead",
+    "a quarter or more of the runs re-wrap the library's lru_cache tables "
+    "with maxsize 0/1/2/8 so that eviction and refill are the common path",
     "truncated+full additions are restricted to whole-second, hour != 24 "
     "operands (other shapes do not terminate on this tree: C20 territory)",
     "no exception is injected at arbitrary lines inside an operation: the "
